@@ -1,4 +1,7 @@
 /* C14 - grace-period polling: never early, eventually true, stays true */
+#ifdef GP_WHITEBOX
+#include "vflavor_spec.c"	/* white-box build: the polling state can be started from a non-initial, reachable value */
+#endif
 #include "vrt.h"
 #define URCU_API_MAP
 #if defined(FLAVOR_SPEC)
@@ -23,6 +26,18 @@ const char *vrt_property_id = "C14";
 #define N_R(k)		(30 + (k))
 
 static int x[3], y[3], nready;
+
+/* param start_id: the worker has already completed that many grace periods (idle state: current = start_id, the last target
+ * one behind) - lets the identifiers of a scenario straddle the wrap-around of the counter */
+static void start_state(void)
+{
+#ifdef GP_WHITEBOX
+	unsigned long s = (unsigned long)vrt_param("start_id", 0);
+
+	poll_worker_gp_state.current_state.grace_period_id = s;
+	poll_worker_gp_state.latest_target.grace_period_id = s - 1;
+#endif
+}
 static int ready_pred(void *a) { return nready >= (int)(long)a; }
 
 static void poller(int p)
@@ -89,6 +104,7 @@ static void run_one(void)
 {
 	pthread_t r;
 
+	start_state();
 	rcu_register_thread();
 	pthread_create(&r, NULL, reader, (void *)0L);
 	vrt_await(ready_pred, (void *)1L);
@@ -111,6 +127,7 @@ static void run_two(void)
 {
 	pthread_t r, p;
 
+	start_state();
 	rcu_register_thread();
 	pthread_create(&r, NULL, reader, (void *)0L);
 	vrt_await(ready_pred, (void *)1L);
@@ -127,6 +144,7 @@ static void run_late(void)
 {
 	pthread_t r0, r1;
 
+	start_state();
 	rcu_register_thread();
 	pthread_create(&r0, NULL, reader, (void *)0L);
 	vrt_await(ready_pred, (void *)1L);
@@ -148,6 +166,7 @@ static void run_inflight(void)
 	struct call_rcu_data *crdp = NULL;
 	int i;
 
+	start_state();
 	rcu_register_thread();
 	if (vrt_param("helper", 0)) {	/* the polling worker callback is queued on a per-thread helper ... */
 		crdp = create_call_rcu_data(0, -1);
@@ -195,6 +214,7 @@ static void run_three(void)
 	struct urcu_gp_poll_state h[3];
 	int i, p, done[3] = { 0, 0, 0 }, ndone = 0;
 
+	start_state();
 	rcu_register_thread();
 	pthread_create(&r0, NULL, reader, (void *)0L);
 	vrt_await(ready_pred, (void *)1L);
